@@ -37,6 +37,8 @@ func runC05(c *core.Ctx) {
 	c.Rule("C05.arrayidx", "A9b: in tick/stateful, a fixed-size array indexed by a loop variable is reached only after the loop's range length was compared with the array length")
 	c.Rule("C05.udf.panic", "A9b: no explicit panic(...) in udf.Server code reachable from the reader/writer goroutines (readData, writeData): peer or point data must produce an error, not a process crash")
 	c.Rule("C05.udf.state", "A9b: in udf.Server.handleResponse, protocol state assigned by one message kind (s.begin) is dereferenced in another kind's arm only under a nil test")
+	c.Rule("C05.udf.send", "A2: the UDF server's reader (handleResponse) never blocks for good on its consumer: every channel send in it is an arm of a select that also receives from s.aborting (or has a default arm); a bare send leaves the reader stuck when Out() is not drained, and Abort — which waits for the reader while holding the server mutex — never returns")
+	c.Rule("C05.typeguard", "A7: no ErrTypeGuardFailed literal in an Eval<Kind> method of tick/stateful reports as ActualType the very kind the method was asked for, and under a test of the result container's Is<Kind>Value flag the ActualType is that kind: the re-specialisation loop of EvalBinaryNode.eval trusts ActualType, and a report that repeats the requested type makes it select the same function again — unbounded recursion, a stack overflow no recover() can contain")
 	c.Rule("C05.udf.alloc", "A9b: a size taken from a peer message (Begin.Size, the frame length) is compared against a lower and an upper bound on every path before it sizes an allocation")
 
 	c05Recover(c)
@@ -55,6 +57,7 @@ func runC05(c *core.Ctx) {
 	}
 	if pkg := c.P.Pkg("udf"); pkg != nil {
 		c05UDF(c, pkg)
+		c05UDFSend(c, pkg)
 	} else {
 		c.Undecided("C05.udf.panic", "anchor:udf", token.NoPos, "package not loaded")
 	}
@@ -64,6 +67,7 @@ func runC05(c *core.Ctx) {
 	if c.P.Pkg("udf") != nil {
 		ruleEscape(c, "C05.udf.escape", "udf", "Server")
 	}
+	c05TypeGuard(c)
 }
 
 // ---------------------------------------------------------------- recover placement
@@ -842,6 +846,127 @@ func c05UDF(c *core.Ctx, pkg *packages.Package) {
 	c.Check(stateBad == "", "C05.udf.state", "Server.handleResponse#begin", statePos, "%s", stateBad)
 	c.Floor("C05.udf.alloc", "peer-sized allocations on paths", nAlloc, 1)
 	c.Check(allocBad == "", "C05.udf.alloc", "Server.handleResponse#Begin.Size", allocPos, "%s", allocBad)
+}
+
+func c05UDFSend(c *core.Ctx, pkg *packages.Package) {
+	info := pkg.TypesInfo
+	fn := c.Need("C05.udf.send", "udf", "Server", "handleResponse")
+	if fn == nil {
+		return
+	}
+	parents := parentMap(fn.Decl.Body)
+	n, good := 0, true
+	ast.Inspect(fn.Decl.Body, func(nd ast.Node) bool {
+		send, ok := nd.(*ast.SendStmt)
+		if !ok {
+			return true
+		}
+		n++
+		guarded := false
+		if cc, ok := parents[send].(*ast.CommClause); ok && cc.Comm == ast.Stmt(send) {
+			if sel, ok := parents[parents[cc]].(*ast.SelectStmt); ok {
+				for _, st := range sel.Body.List {
+					oc := st.(*ast.CommClause)
+					if oc == cc {
+						continue
+					}
+					if oc.Comm == nil {
+						guarded = true
+						continue
+					}
+					if x := commRecv(oc.Comm); an.FieldSel(info, x, "Server", "aborting") {
+						guarded = true
+					}
+				}
+			}
+		}
+		if !guarded {
+			good = false
+			c.Fail("C05.udf.send", "Server.handleResponse#send:"+types.ExprString(send.Chan), send.Pos(), "a message from the UDF is sent on %s outside a select with <-s.aborting: when the consumer of Out() has gone (its edge was aborted) or is slow, the reader blocks here for good, Abort waits for it with s.mu held, and every later stop of the task — and with it the task master — hangs", types.ExprString(send.Chan))
+		}
+		return true
+	})
+	c.Floor("C05.udf.send", "channel sends in handleResponse", n, 3)
+	if good {
+		c.Ok("C05.udf.send", "Server.handleResponse")
+	}
+}
+
+func c05TypeGuard(c *core.Ctx) {
+	pkg := c.P.Pkg("tick/stateful")
+	if pkg == nil {
+		c.Undecided("C05.typeguard", "anchor:tick/stateful", token.NoPos, "package not loaded")
+		return
+	}
+	info := pkg.TypesInfo
+	kindOf := map[string]string{"IsFloat64Value": "TFloat", "IsInt64Value": "TInt", "IsStringValue": "TString", "IsBoolValue": "TBool", "IsDurationValue": "TDuration", "IsRegexValue": "TRegex", "IsTimeValue": "TTime", "IsMissingValue": "TMissing"}
+	n, good := 0, true
+	for _, f := range core.AllFuncs(pkg) {
+		if f.Decl.Body == nil {
+			continue
+		}
+		parents := parentMap(f.Decl.Body)
+		ast.Inspect(f.Decl.Body, func(nd ast.Node) bool {
+			cl, ok := nd.(*ast.CompositeLit)
+			if !ok {
+				return true
+			}
+			tv, ok := info.Types[cl]
+			if !ok {
+				return true
+			}
+			if named := core.NamedOf(tv.Type); named == nil || named.Obj().Name() != "ErrTypeGuardFailed" {
+				return true
+			}
+			req, act := "", ""
+			for _, el := range cl.Elts {
+				if kv, ok := el.(*ast.KeyValueExpr); ok {
+					switch types.ExprString(kv.Key) {
+					case "RequestedType":
+						req = types.ExprString(kv.Value)
+					case "ActualType":
+						act = types.ExprString(kv.Value)
+					}
+				}
+			}
+			if !strings.HasPrefix(req, "ast.T") || !strings.HasPrefix(act, "ast.T") {
+				return true // a computed type: not decidable here
+			}
+			n++
+			// what the enclosing Eval<Kind> method was asked for
+			methodReq := ""
+			if strings.HasPrefix(f.Decl.Name.Name, "Eval") {
+				methodReq = map[string]string{"EvalInt": "ast.TInt", "EvalFloat": "ast.TFloat", "EvalString": "ast.TString", "EvalBool": "ast.TBool", "EvalDuration": "ast.TDuration", "EvalRegex": "ast.TRegex", "EvalTime": "ast.TTime", "EvalMissing": "ast.TMissing"}[f.Decl.Name.Name]
+			}
+			if methodReq != "" && req != methodReq && act != methodReq {
+				c.Note("C05.typeguard: %s reports RequestedType %s (the method evaluates %s); only the message is affected", f.Name(), req, methodReq)
+			}
+			if (methodReq != "" && act == methodReq) || (methodReq == "" && req == act) {
+				good = false
+				c.Fail("C05.typeguard", f.Name()+"#"+strings.TrimPrefix(req, "ast."), cl.Pos(), "the type-guard error says the value is of type %s when %s was requested: EvalBinaryNode.eval re-specialises from ActualType, selects the same function again and recurses without end — fatal stack overflow on one data point (a field that changes from int to float under nested arithmetic)", act, req)
+				return true
+			}
+			for p := parents[cl]; p != nil; p = parents[p] {
+				ifs, ok := p.(*ast.IfStmt)
+				if !ok {
+					continue
+				}
+				inBody := ifs.Body.Pos() <= cl.Pos() && cl.End() <= ifs.Body.End()
+				if sel, ok := ast.Unparen(ifs.Cond).(*ast.SelectorExpr); ok && inBody {
+					if want, ok := kindOf[sel.Sel.Name]; ok && act != "ast."+want {
+						good = false
+						c.Fail("C05.typeguard", f.Name()+"#"+sel.Sel.Name, cl.Pos(), "under `%s` the type-guard error reports ActualType %s, the value is a %s", types.ExprString(ifs.Cond), act, want)
+					}
+				}
+				break
+			}
+			return true
+		})
+	}
+	c.Floor("C05.typeguard", "ErrTypeGuardFailed literals with constant types", n, 10)
+	if good {
+		c.Ok("C05.typeguard", "tick/stateful")
+	}
 }
 
 func c05AgentIO(c *core.Ctx, pkg *packages.Package) {
